@@ -333,6 +333,8 @@ func checkC09(c *Ctx) {
 
 	// C09.4 the vote table is accessed only under its mutex (verification may run concurrently)
 	c.checkGuard("C09.4", guards["VotingMachine"])
+	// (votes are verified one goroutine per vote: the proof-of-possession memo of the BLS scheme is shared between them)
+	c.checkGuard("C09.4", guards["bls12Base"])
 
 	// C09.7 Kauri
 	c09Kauri(c)
